@@ -28,6 +28,9 @@ func c12Gen(r *rand.Rand, tier string) []spec.Case {
 		for _, pr := range []string{"netrpc", "grpc"} {
 			add(spec.C12Case{Proto: pr, Path: "main-tlsprovider", Launch: "cmd"})
 		}
+		for _, la := range []string{"cmd", "runner"} {
+			add(spec.C12Case{Proto: "grpc", Path: "brokered-address-impostor", Launch: la})
+		}
 		add(spec.C12Case{Proto: "grpc", Path: "plugin-brokered", Launch: "runner"})
 		add(spec.C12Case{Proto: "grpc", Path: "host-brokered", Launch: "runner"})
 		for _, pr := range []string{"grpcmux", "grpc"} {
@@ -178,7 +181,7 @@ func init() {
 				r.Inconcl = append(r.Inconcl, fmt.Sprintf("too little observed: %v", r.Counters))
 			}
 		},
-		Rule:        "cases = connection path (main listener of net/rpc, gRPC, gRPC+mux incl. an intruder that takes the multiplexed listener's single session before the host; plugin-side and host-side brokered gRPC listeners found by listing the case's private socket directories, also with an address-translating runner; and, for gRPC with and without multiplexing, brokered listeners of both sides reached the broker's own way -- DialWithOptions on the legitimate session, knock included -- with only the transport credentials replaced by the intruder's) x intruder credential class (plaintext, TLS without client certificate, TLS with a fresh self-signed certificate of another name, TLS with a certificate of identical subject/SAN but another key, the latter also verifying against its own CA), fresh keys per case, each attempt speaking the real protocol (yamux+net/rpc Control.Ping, gRPC health check, PingPong) and each case carrying a positive control by the legitimate peer; plus plugins started directly with PLUGIN_CLIENT_CERT in unusual shapes (certificate followed / preceded by a PEM block that is not a certificate, by a key block, by text, two certificates, no certificate at all) attacked on their main listener by the same intruder classes; plus plugins that serve with a TLSProvider of their own (no client authentication) launched by an AutoMTLS host: either the host gets no working session, or intruders must be refused on that listener; plus impostor plugins that announce certificate A and serve certificate B, plaintext, or B with A appended to the chain (A with and without the name the host dials) with the real protocol. Class = protocol|path|launch",
+		Rule:        "cases = connection path (main listener of net/rpc, gRPC, gRPC+mux incl. an intruder that takes the multiplexed listener's single session before the host; plugin-side and host-side brokered gRPC listeners found by listing the case's private socket directories, also with an address-translating runner; and, for gRPC with and without multiplexing, brokered listeners of both sides reached the broker's own way -- DialWithOptions on the legitimate session, knock included -- with only the transport credentials replaced by the intruder's) x intruder credential class (plaintext, TLS without client certificate, TLS with a fresh self-signed certificate of another name, TLS with a certificate of identical subject/SAN but another key, the latter also verifying against its own CA), fresh keys per case, each attempt speaking the real protocol (yamux+net/rpc Control.Ping, gRPC health check, PingPong) and each case carrying a positive control by the legitimate peer; plus plugins started directly with PLUGIN_CLIENT_CERT in unusual shapes (certificate followed / preceded by a PEM block that is not a certificate, by a key block, by text, two certificates, no certificate at all) attacked on their main listener by the same intruder classes; plus a brokered address (no multiplexing) at which somebody presenting another certificate listens while the host dials it and keeps retrying for 5 s; plus plugins that serve with a TLSProvider of their own (no client authentication) launched by an AutoMTLS host: either the host gets no working session, or intruders must be refused on that listener; plus impostor plugins that announce certificate A and serve certificate B, plaintext, or B with A appended to the chain (A with and without the name the host dials) with the real protocol. Class = protocol|path|launch",
 		Assumptions: []string{"a case without a successful positive control is inconclusive, never 'held'", "samples credential classes; says nothing about TLS itself"},
 	})
 }
